@@ -190,9 +190,21 @@ def _run(V, work, tier):
                 lintin.append({"id": cid, "src": src})
                 runin.append({"id": cid, "src": src, "cfg": {"nostdlib": True}})
                 meta[cid] = ("place", {"k": -1, "head": head, "place": pl, "style": style}, "plain", src)
+    # package-qualified heads: a function of ANOTHER package that shares its bare name with a builtin of different arity
+    # (defined in a file the linter is not shown), and builtins called through their own package name
+    CFGPKG = "(in-package 'cfg)\n(defun get (m key default) default)\n(defun car (a b) (list a b))\n(defun cons (a) a)\n(export 'get 'car 'cons)\n(in-package 'user)"
+    for head, call in [("get", "(cfg:get 1 2 3)"), ("get", "(cfg:get 1 2)"), ("car", "(cfg:car 1 2)"), ("car", "(cfg:car '(1))"), ("cons", "(cfg:cons 1)"), ("cons", "(cfg:cons 1 2)"),
+                       ("car", "(lisp:car '(1))"), ("car", "(lisp:car '(1) '(2))"), ("cons", "(lisp:cons 1)"), ("get", "(lisp:get (sorted-map) \"a\")")]:
+        for pl in ("%s", "(list %s)", "(let ([v %s]) v)"):
+            cid = "q%d" % n
+            n += 1
+            src = pl % call
+            lintin.append({"id": cid, "src": src})
+            runin.append({"id": cid, "seq": [CFGPKG, src], "cfg": {"nostdlib": True}})
+            meta[cid] = ("qual", {"k": -1, "head": head, "call": call}, "plain", src)
     lints = {r["id"]: r for r in driver_json(binary, ["lint"], lintin)}
-    runs = {r["id"]: r["runs"][0]["evals"][0] for r in driver_json(binary, ["run"], runin)}
-    cnt = {"shape": 0, "registry": 0, "shadow": 0, "place": 0}
+    runs = {r["id"]: r["runs"][0]["evals"][-1] for r in driver_json(binary, ["run"], [dict(r, seq=r.get("seq") or [r["src"]]) for r in runin])}
+    cnt = {"shape": 0, "registry": 0, "shadow": 0, "place": 0, "qual": 0}
     for cid, (kind, p, mode, src) in meta.items():
         cnt[kind] += 1
         L = lints[cid]
@@ -200,6 +212,16 @@ def _run(V, work, tier):
             raise MachineryError("lint could not parse a generated program: %s\n%s" % (L["err"], src))
         diags = [d for d in (L.get("diags") or []) if d["analyzer"] in ("builtin-arity", "user-arity", "if-arity")]
         ev = runs[cid]
+        if kind == "qual":
+            reported = any(d["msg"].startswith(p["head"] + " ") for d in diags)
+            dyn = classify(ev)
+            if reported and dyn == "ok":
+                V.add(None, "lint reports a package-qualified call that binds at run time: %s" % p["call"], {"src": src, "diags": diags})
+            # (the linter is not shown the file that defines cfg's functions, so only calls of the language package's own
+            # builtins must be reported when they fail)
+            if not reported and dyn == "arity" and p["call"].startswith("(lisp:"):
+                V.add(None, "lint accepts a package-qualified call that fails with invalid number of arguments: %s" % p["call"], {"src": src})
+            continue
         if kind == "place":
             head = p["head"]
             reported = any(d["msg"].startswith(head + " ") for d in diags)
